@@ -36,6 +36,11 @@ CLAIMS = {
          "Generated tie-heavy corpora and scoring queries that take the block-WAND union/intersection paths and generic boolean trees are ranked with every key kind, K and offset; the result must be exactly the slice [O, O+K) of the complete list sorted by (key, address) - bit-for-bit for exactly comparable keys, by a validity predicate for multi-clause float sums - and paging must enumerate every match once.",
          "complete list obtained through Collector::collect on the same searcher (no dynamic pruning); tolerance 4e-6 per clause for float sums",
          "DESIGN.md §3 C06"),
+ "C08": ("exploration",
+         "round-trip and merge property testing of columnar data against a Vec-of-rows model, directly on the columnar crate and through tantivy fast fields (proptest)",
+         "Generated tables (every column type and cardinality, row counts around the 64/512/1024/5120/65536 boundaries, value profiles that select each codec, extremes) are written, read back bit-for-bit in insertion order, checked for min/max bounds, cardinality and index consistency, value-range lookups vs brute force, sorted bijective dictionaries, and merged by stacking and by generated permutations with alive bitsets (also merged twice); the same through schema fast fields incl. JSON sub-paths and date precision before and after IndexWriter::merge with deletes.",
+         "which numeric column type the writer picks is not asserted; large row counts (>= 65535) are generated rarely",
+         "DESIGN.md §3 C08"),
  "C09": ("exploration",
          "round-trip property testing of the document store (StoreWriter/StoreReader directly and through IndexWriter/Searcher) against an independent document model (proptest)",
          "Generated documents of every value type (nested JSON to depth 8, multi-valued fields, huge values, pre-tokenised text, non-stored fields) are written under generated compressor / block size / compression-thread settings, stacked or re-compressed, merged (incl. codec changes and sorted indexes) and read back through Searcher::doc, StoreReader::get, iter and iter(alive) in generated access orders and cache sizes; every value must equal the model.",
